@@ -437,6 +437,10 @@ ENVIRONMENTS = {
     "TZ=XXX-9": {"TZ": "XXX-9"},
     "TZ=XXX+11, LC_ALL=tr_TR.UTF-8": {"TZ": "XXX+11", "LC_ALL": "tr_TR.UTF-8", "LANG": "tr_TR.UTF-8"},
     "private CA bundle (SSL_CERT_FILE / SSL_CERT_DIR)": {"SSL_CERT_FILE": "@forged_root_bundle", "SSL_CERT_DIR": "@forged_root_dir"},
+    "logging at DEBUG level (root logger)": {"VERIF_LOGGING": "root"},
+    "logging at DEBUG level ('webauthn' logger hierarchy)": {"VERIF_LOGGING": "webauthn"},
+    "python -bb (bytes/str comparisons are errors)": {"@args": "-bb"},
+    "python -X dev, -X utf8, PYTHONINTMAXSTRDIGITS=640": {"@args": "-X dev -X utf8", "PYTHONINTMAXSTRDIGITS": "640"},
 }
 
 
@@ -458,14 +462,25 @@ def env_invariance(chk, group):
         os.replace(bundle + f".{os.getpid()}", bundle)
     except Exception:
         pass
+    # environment variables the CURRENT source mentions and the pinned source did not (harness/srcdict.py): each with a few plausible values
+    environments = dict(ENVIRONMENTS)
+    try:
+        from harness import srcdict, regsim as _rs
+        vals = ["0", "1", "true", "16", "1561939200", str(_rs.T0 - 400 * _rs.DAY)] + [str(n) for n in srcdict.new()["int"][:4]]
+        for nm in srcdict.env_names():
+            for v in vals:
+                environments[f"{nm}={v} (a variable the changed source reads)"] = {nm: v}
+    except Exception:
+        pass
     procs = {}
-    for name, extra in ENVIRONMENTS.items():
+    for name, extra in environments.items():
         env = dict(os.environ)
         env.update({k: (bundle if v == "@forged_root_bundle" else bundle_dir if v == "@forged_root_dir" else v) for k, v in extra.items()})
         env["VERIF_REPO"] = repo
         env["PYTHONPATH"] = repo
         env["PYTHONHASHSEED"] = "0"
-        procs[name] = subprocess.Popen([sys.executable, "-m", "harness.envprobe", group], cwd=ROOT, env=env, stdout=subprocess.PIPE, stderr=subprocess.PIPE)
+        args = env.pop("@args", "").split()
+        procs[name] = subprocess.Popen([sys.executable] + args + ["-m", "harness.envprobe", group], cwd=ROOT, env=env, stdout=subprocess.PIPE, stderr=subprocess.PIPE)
     outs = {}
     for name, p in procs.items():
         o, e = p.communicate(timeout=900)
@@ -481,15 +496,18 @@ def env_invariance(chk, group):
             continue
         if rc != 0:
             chk.violation(f"in the environment '{name}' the library could not even run the {group} cases: {err[-200:]}", f"environment {group} {name} crash",
-                          {"environment": ENVIRONMENTS[name], "group": group, "stderr": err})
+                          {"environment": environments[name], "group": group, "stderr": err})
             continue
         m = dict(l.split("\t", 1) for l in lines if "\t" in l)
         for label, out in basemap.items():
             chk.evals += 1
             n += 1
-            if m.get(label) != out:
+            got = m.get(label)
+            if name.startswith("python -bb") and got is not None and not out.startswith("OK") and not got.startswith("OK") and " OK " not in out and " OK " not in got:
+                continue        # -bb turns Python's own bytes/str comparison of a wrongly typed member into a BytesWarning: a rejection either way
+            if got != out:
                 chk.violation(f"outcome depends on the process environment: case '{label}' gives '{out[:60]}' by default but '{str(m.get(label))[:60]}' under {name}",
                               f"environment {group} {name.split(' (')[0]} {label.split(' ')[0]} {label.split(' ')[1] if ' ' in label else ''}",
-                              {"environment": ENVIRONMENTS[name], "group": group, "case": label, "default_outcome": out, "outcome": m.get(label)})
-    chk.notes.append({"environment_invariance": {"group": group, "environments": list(ENVIRONMENTS), "cases": len(basemap), "comparisons": n}})
+                              {"environment": environments[name], "group": group, "case": label, "default_outcome": out, "outcome": m.get(label)})
+    chk.notes.append({"environment_invariance": {"group": group, "environments": list(environments), "cases": len(basemap), "comparisons": n}})
     chk.count(f"environment-invariance:{group}", n)
